@@ -21,9 +21,20 @@ theorem rs_portable_eq_spec (cv : CV) (block : St) (bl : UInt8) (t : UInt64) (fl
 theorem ref_compress_eq_spec (cv : CV) (m : St) (t : UInt64) (b d : UInt32) :
     Gen.Ref.compress cv m t b d = Spec.compress cv m t b d := Proofs.ref_compress_eq cv m t b d
 
+/-- c/blake3_portable.c `blake3_compress_in_place_portable` / `blake3_compress_xof_portable` = the
+specification's compression function (so the C library's portable kernels equal the Rust ones) -/
+theorem c_portable_eq_spec (cv : CV) (block : St) (bl : UInt8) (t : UInt64) (fl : UInt8) :
+    Gen.C.compress_xof cv block bl t fl = Spec.compress cv block t bl.toUInt32 fl.toUInt32 ∧
+    Gen.C.compress_in_place cv block bl t fl = first8 (Spec.compress cv block t bl.toUInt32 fl.toUInt32) ∧
+    Gen.C.compress_xof cv block bl t fl = Gen.Rs.compress_xof cv block bl t fl :=
+  ⟨Proofs.c_compress_xof_eq cv block bl t fl, Proofs.c_compress_in_place_eq cv block bl t fl,
+   by rw [Proofs.c_compress_xof_eq, Proofs.rs_compress_xof_eq]⟩
+
 /-- `MSG_SCHEDULE[r]` is the r-th power of the message permutation -/
-theorem msg_schedule_is_permutation_power : ∀ r : Fin 7, ∀ i : Fin 16, Gen.Rs.MSG_SCHEDULE[r][i] = Proofs.sigmaPow r i :=
-  Proofs.rs_sched_eq
+theorem msg_schedule_is_permutation_power :
+    (∀ r : Fin 7, ∀ i : Fin 16, Gen.Rs.MSG_SCHEDULE[r][i] = Proofs.sigmaPow r i) ∧
+    (∀ r : Fin 7, ∀ i : Fin 16, Gen.C.MSG_SCHEDULE[r][i] = Proofs.sigmaPow r i) :=
+  ⟨Proofs.rs_sched_eq, Proofs.c_sched_eq⟩
 
 /-- the contract of `hash_many` over whole chunks (16 blocks, CHUNK_START / CHUNK_END, counter
 incremented per input): lane `i` is the chaining value of the specification's chunk node -/
